@@ -319,7 +319,10 @@ func VerifC05_TamperEnvelope() {
 	verif_Assert(verr == nil, "the untouched advertisement verifies")
 	env := append([]byte{}, (*target)...)
 	verif_Assume(len(env) > 0)
-	pos := verif_Choose("alteredByte", 0, len(env)-1)
+	// (counted from the end, where the signature is in the real envelope encoding and
+	// in the engine's model of it alike: a position then names the same part of the
+	// envelope in the symbolic run and in its native replay)
+	pos := len(env) - 1 - verif_Choose("alteredByteFromEnd", 0, len(env)-1)
 	m := verif_U8("xorMask")
 	verif_Assume(m != 0)
 	env[pos] ^= m
